@@ -281,6 +281,67 @@ func c01Worker(c *core.Collector, x *Ctx) {
 		}
 		run(c01Case{Kind: "c01", Src: core.Hex(src), ReplyID: reply, PSerial: ps, Body: core.Hex(body), Class: cls})
 	})
+	// receiving loop: the frames Header.Encode produced are decoded the way a reader does it — ONE message object and ONE
+	// buffer for frame after frame (each frame copied to the start of the buffer) — by sources with different phones, versions
+	// and with / without bytes that need escaping: every frame decodes back to ITS source's phone, ID, serial and body
+	{
+		shards := 16
+		per := c.N(1500, 20000)
+		core.ParallelFor(shards, ncpu(), func(sh int) {
+			r := core.NewRand(c.Seed, "c01loop", uint64(sh))
+			rd := jt808.NewJTMessage()
+			scratch := make([]byte, 4096)
+			for i := 0; i < per; i++ {
+				v2019 := r.Chance(1, 4) != (sh%2 == 0) // mostly one layout per shard, now and then the other
+				src, q := c01MakeSrc(r, v2019, r.Chance(1, 5), r.Intn(8))
+				if r.Bool() { // an escape-free source and body half the time
+					q.BCD = c01Phone(r, len(q.BCD), 3)
+					q.ID, q.Serial, q.VersionByt = 0x0200, uint16(0x100+r.Intn(0x7000))&0x7c7c|0x0101, 1
+					src = ref.Build(q)
+				}
+				m := jt808.NewJTMessage()
+				if m.Decode(src) != nil {
+					continue
+				}
+				body := c01Body(r, r.Intn(40), 0)
+				ps := uint16(0x0101 + r.Intn(0x7000)&0x7c7c)
+				m.Header.ReplyID = 0x8001
+				m.Header.PlatformSerialNumber = ps
+				out := m.Header.Encode(body)
+				c.Eval()
+				sf, _ := ref.Validate(src)
+				cs := c01Case{Kind: "c01", Src: core.Hex(src), ReplyID: 0x8001, PSerial: ps, Body: core.Hex(body), Class: "receiving-loop"}
+				var bad string
+				if guard(c, func() any { return cs }, func() {
+					n := copy(scratch, out)
+					if err := rd.Decode(scratch[:n]); err != nil {
+						bad = "decode|library rejects its own frame: " + err.Error()
+						return
+					}
+					h := rd.Header
+					switch {
+					case h.ID != 0x8001:
+						bad = "owndecode|id"
+					case h.TerminalPhoneNo != sf.Phone:
+						bad = "owndecode|phone"
+					case (int(h.ProtocolVersion) == 3) != sf.V2019:
+						bad = "owndecode|version"
+					case h.SerialNumber != ps:
+						bad = "owndecode|serial"
+					case !bytes.Equal(rd.Body, body):
+						bad = "owndecode|body"
+					}
+				}) {
+					return
+				}
+				if bad != "" {
+					c.Violate("roundtrip|"+bad+"|decoded by a reused message object from a reused buffer", "a frame built by Header.Encode, decoded the way a read loop does it, comes back as another message: "+bad, cs)
+					return
+				}
+				c.Count("frames_decoded_by_a_reused_object_from_a_reused_buffer", 1)
+			}
+		})
+	}
 	// special-count sweep: bodies with EXACTLY k bytes that need escaping (k = 0..140, and around 256 / 512 / 1023), in an
 	// otherwise special-free frame, with the checksum steered to 7e, 7d or left alone: output-buffer sizing and growth in
 	// the escaper depend on the number of escapes, and the closing delimiter / an escaped checksum land right behind them
